@@ -104,6 +104,12 @@ MEDIUM1 = [('/*x*/', 'early'), ('/*x*/ tv', 'ok'), ('tv', 'ok'), ('SCREEN', 'ok'
 MEDIATYPES = [('tv', 'ok'), ('nosuch', 'early'), ('3d', 'early'), ('', 'early'), ('tv print', 'late')]
 VALUES = [('2px', 'ok'), ('red', 'ok'), ('1px 2px', 'ok'), (')', 'early'), ('1px )', 'late'), ('1px;2px', 'late'), ('', 'early'), ('1px !important', 'late'), ('calc(1px +', 'late'), ('1px,', 'late'),
           ('url(', 'early'), ('rgb(1,2', 'late'), ('1px {', 'late'), ('"x', 'early'), ('1px /', 'late'), ('f(1 g(2 h(', 'nested')]  # fmt: skip
+# round 8: texts that are refused *late* for what they hold, not for their syntax - nothing but comments / white space (tokenises and parses, holds no value),
+# and literals beyond what a float or Python's int conversion takes, written with another sign and unit than the value they would replace
+LATE_VALUE_TEXTS = [('/* only a comment */', 'late'), ('/**/ /*x*/', 'late'), (' ', 'late'), ('+' + '9' * 320 + '.5%', 'late'), ('-' + '9' * 400 + '.25em', 'late'),
+                    ('+' + '9' * 5000 + 'pt', 'late'), ('9' * 5000, 'late'), ('rgb(' + '9' * 400 + '.5, 1, 1)', 'late'), ('calc(1px * ' + '9' * 5000 + ')', 'late')]
+VALUES = VALUES + LATE_VALUE_TEXTS
+VALUE_KIND_TEXTS = VALUE_KIND_TEXTS + LATE_VALUE_TEXTS
 NAMES = [('bottom', 'ok'), ('BOTTOM', 'ok'), ('-x-y', 'ok'), ('1a', 'early'), ('', 'early'), ('a b', 'late'), ('a:', 'late'), ('$a', 'early'), ('a;b', 'late'), ('"a"', 'early')]
 PRIOS = [('important', 'ok'), ('!important', 'ok'), ('!bogus', 'late'), ('!IMPORTANT', 'ok'), ('! Bogus', 'late'), ('', 'ok'), ('x', 'early'), ('important x', 'late'), ('! important !', 'late'), ('1', 'early')]
 PROPTEXTS = [('bottom:2px', 'ok'), ('bottom:2px !important', 'ok'), ('bottom:)', 'late'), ('bottom', 'late'), (':2px', 'early'), ('bottom:2px !x', 'late'), ('bottom:2px;top:1px', 'late'), ('bottom 2px', 'late'),
